@@ -376,6 +376,9 @@ def resume_run(job, out_fd):
                 os._exit(77)
             r = orig_main(*a, **kw)
             state["n"] += 1
+            if state["n"] == kill_after:
+                # dies right after the j-th result was written (for j = n: all members written, log not yet)
+                os._exit(77)
             return r
 
         writer.main = main
@@ -392,7 +395,10 @@ def resume_run(job, out_fd):
     sys.addaudithook(hook)
     res = {"exc": None}
     try:
-        app.apply_to(job["inputs"], logger=False, cleanup=False, show_progress=False)
+        if job.get("with_log", True):
+            app.apply_to(job["inputs"], cleanup=True, show_progress=False)  # default logger: the log is stored in the data store
+        else:
+            app.apply_to(job["inputs"], logger=False, cleanup=False, show_progress=False)
     except BaseException as e:  # noqa
         res["exc"] = type(e).__name__ + ": " + str(e)[:200]
     res["opens"] = state["opens"]
@@ -401,7 +407,7 @@ def resume_run(job, out_fd):
 
 
 def observe_store(path):
-    st = {"completed": {}, "not_completed": {}, "md5": {}, "other": []}
+    st = {"completed": {}, "not_completed": {}, "md5": {}, "other": [], "logs": []}
     for root, dirs, files in os.walk(path):
         for n in files:
             p = os.path.join(root, n)
@@ -418,8 +424,21 @@ def observe_store(path):
                     st["not_completed"][n] = ["unparsable", type(e).__name__, txt[:80]]
             elif rel.startswith("md5" + os.sep):
                 st["md5"][n] = txt
-            elif not rel.startswith("log"):
+            elif rel.startswith("logs" + os.sep):
+                st["logs"].append(len(txt.strip().split("\n")) > 3)
+            else:
                 st["other"].append(rel)
+    # the store as cogent3 itself reports it
+    try:
+        from cogent3.app.data_store import DataStoreDirectory
+
+        ds = DataStoreDirectory(path, mode="r", suffix="fasta")
+        st["describe"] = [[str(a), int(b)] for a, b in ds.describe.array.tolist()]
+        st["validate"] = [[str(a), str(b)] for a, b in ds.validate().array.tolist()]
+        st["summary_logs_rows"] = ds.summary_logs.shape[0] if len(ds.logs) else 0
+    except Exception as e:  # noqa
+        st["describe"] = st["validate"] = ["error", type(e).__name__, str(e)[:120]]
+        st["summary_logs_rows"] = -1
     return st
 
 
